@@ -9,6 +9,7 @@ from __future__ import annotations
 import copy
 import random
 from datetime import date, timedelta
+from fractions import Fraction
 from typing import Any, Dict, List, Optional
 
 from rpv import families
@@ -37,8 +38,8 @@ ASSUMPTIONS = [
     "rp2_jp is not given -f together with -t (KF3 of C16)",
 ]
 SETTINGS: Dict[str, Dict[str, Any]] = {
-    "quick": {"cases": 96, "budget_s": 60, "minimums": {"asset_year_sheets": 300, "chain_links": 200, "chain_to_non_adjacent_year": 40, "nontrivial": 25, "reports_with_a_fee_row_equal_to_a_transfer_fee": 3, "size_sweep_cases": 20}},
-    "thorough": {"cases": 2500, "budget_s": 420, "minimums": {"asset_year_sheets": 4000, "chain_links": 2000, "chain_to_non_adjacent_year": 400, "nontrivial": 400, "reports_with_a_fee_row_equal_to_a_transfer_fee": 60, "size_sweep_cases": 100}},
+    "quick": {"cases": 96, "budget_s": 60, "minimums": {"asset_year_sheets": 300, "chain_links": 200, "chain_to_non_adjacent_year": 40, "nontrivial": 25, "reports_with_a_fee_row_equal_to_a_transfer_fee": 3, "size_sweep_cases": 20, "reports_with_a_transfer_fee_worth_less_than_5e-14": 4}},
+    "thorough": {"cases": 2500, "budget_s": 420, "minimums": {"asset_year_sheets": 4000, "chain_links": 2000, "chain_to_non_adjacent_year": 400, "nontrivial": 400, "reports_with_a_fee_row_equal_to_a_transfer_fee": 60, "size_sweep_cases": 100, "reports_with_a_transfer_fee_worth_less_than_5e-14": 100}},
 }
 
 
@@ -93,6 +94,12 @@ def make_case(rng: random.Random, index: int) -> Dict[str, Any]:
         # a transfer fee and a FEE-typed out-transaction of the same account, instant and amount: two transactions, two rows
         for hist in hists.values():
             add_twin_fee(rng, hist)
+    if index % 8 == 5:
+        # a transfer whose crypto fee is worth less than 5e-14 yen: still a fee-bearing transfer, listed with the number it is worth
+        from rpv import families
+
+        first = sorted(hists)[0]
+        hists[first] = families.tiny_fee_transfer(rng, first)
     language = rng.choice(("en", "kl"))
     dates = sorted({parse_ts(r["ts"]).date() for h in hists.values() for r in h["rows"]})
     from_s = to_s = None
@@ -147,6 +154,8 @@ def _one(ctx: Any, case: Dict[str, Any], name: str) -> None:
         ctx.count("first_year_opening_zero", stats.opening_zero)
         ctx.count("summary_lines", stats.summary_lines)
         ctx.tag("tag_language", case["language"])
+        if any(r["t"] == "INTRA" and r.get("spot") and 0 < (Fraction(r["sent"]) - Fraction(r["recv"])) * Fraction(r["spot"]) < Fraction(5, 10**14) for h in hists.values() for r in h["rows"]):
+            ctx.count("reports_with_a_transfer_fee_worth_less_than_5e-14")
         if any("twinfee" in str(r.get("uid")) for h in hists.values() for r in h["rows"]):
             ctx.count("reports_with_a_fee_row_equal_to_a_transfer_fee")
         if stats.chain_to_non_adjacent_year:
